@@ -617,8 +617,11 @@ func TestVerif_C18(t *testing.T) {
 			}
 			for _, cn := range wrapCreds {
 				for _, pm := range params {
-					for _, pl := range c18WrapPayloads() {
-						for _, w := range c18Wrappers(pl) {
+					for pli, pl := range c18WrapPayloads() {
+						for wi, w := range c18Wrappers(pl) {
+							if pli > 0 && wi%3 != 0 && !verifThorough() {
+								continue // quick: every wrapper with the blank payload, every third with the others
+							}
 							wrapperOf[w.text] = w.wrapper
 							res.bump("wrapped_probes")
 							hsend(route, b, cn, c18Mode{}, pm, w.text)
